@@ -205,6 +205,17 @@ def _del_members_annotated_as_initvar(class_: Class) -> None:
             class_.del_member(attribute.name)
 
 
+def _label_dataclass_subclass(class_: Class) -> None:
+    # At least one parent dataclass makes the current class a dataclass
+    # (that's how `dataclasses.is_dataclass` works), whether it defines its own `__init__` or not.
+    try:
+        mro = class_.mro()
+    except ValueError:
+        return
+    if any(_dataclass_decorator(parent.decorators) for parent in mro):
+        class_.labels.add("dataclass")
+
+
 def _apply_recursively(mod_cls: Module | Class, processed: set[str]) -> None:
     if mod_cls.canonical_path in processed:
         return
@@ -213,6 +224,8 @@ def _apply_recursively(mod_cls: Module | Class, processed: set[str]) -> None:
         if "__init__" not in mod_cls.members:
             _set_dataclass_init(mod_cls)
             _del_members_annotated_as_initvar(mod_cls)
+        else:
+            _label_dataclass_subclass(mod_cls)
         for member in mod_cls.members.values():
             if not member.is_alias and member.is_class:
                 _apply_recursively(member, processed)  # type: ignore[arg-type]
